@@ -269,6 +269,12 @@ def gen(quick):
                 if ns:
                     for slens in itertools.product((0.05, 0.059) if ns <= 2 else (0.05,), repeat=ns):
                         yield (seqs, slens, base, 0.06)
+                if ns and ns <= 2 and n <= 3:
+                    # thresholds FINER than the library's default resolution (1e-9, 0): the caller's threshold is the threshold - a 5e-9 interval is
+                    # not a sliver under 1e-9, and under 0 nothing is
+                    for slens in itertools.product((5e-9, 5e-10), repeat=ns):
+                        for thr in (1e-9, 0):
+                            yield (seqs, slens, base, thr)
                         if not quick:
                             yield (seqs, slens, base, None)
             # labels with many quote characters / hundreds of characters (the label is written with the interval, whatever its length)
@@ -314,7 +320,7 @@ def parts(tier):
     return [InputPart(
         "slivers", lambda: gen(quick), check,
         rule="all segment sequences over {ordinary labelled, ordinary gap, labelled sliver, gap sliver} of length <=%d with at least "
-             "one ordinary segment and <=3 slivers x sliver lengths x base times {0,0.3,1} (and, laid out backwards from their end, tiers ending at 1, 100, 4096 so that boundaries lie a sliver below a whole number) x thresholds {None,1e-8,0.06}, plus labels with 10 / 30 quote characters and of 9000 characters; each case "
+             "one ordinary segment and <=3 slivers x sliver lengths x base times {0,0.3,1} (and, laid out backwards from their end, tiers ending at 1, 100, 4096 so that boundaries lie a sliver below a whole number) x thresholds {None,1e-8,0.06} (and the finer thresholds 1e-9 and 0 with slivers of 5e-9 / 5e-10), plus labels with 10 / 30 quote characters and of 9000 characters; each case "
              "runs 13 span overrides (none, equal, below/above/both by 1 s, just below/above by a sliver, inside an unlabelled leading/trailing stretch, inside the data) x includeBlankSpaces x formats (all 4 for 'none'/'both', short + textgrid_json otherwise), on a textgrid with two identical interval tiers and a point tier; non-trivial = distinct (sequence, threshold, exact sliver "
              "classification)" % (4 if quick else 5),
         bounds={"max_segments": 4 if quick else 5, "sliver_lengths": list((1e-12, 9.9e-9, 1e-8, 1.1e-8) if quick else D.SLV)},
